@@ -1,21 +1,26 @@
 -------------------------------- MODULE MC_CliffordCircuit --------------------------------
-(* Every interleaving of {append any gate instance on QN qubits, query, apply to a Pauli, export} up to MaxLen
+(* Every interleaving of {append any gate instance on QN qubits, append a generator-chosen gate, query, apply to a Pauli, export} up to MaxLen
    operations.  `hist` is the operation word (it is the state that distinguishes histories; no VIEW), the dump of
    this model is the list of histories replayed into the real object.  Design invariants checked in every state:
    the circuit tableau is a valid automorphism, padding with idle qubits does not change it, and the incremental
    formulation (compose on append) equals recomputation from the gate list. *)
 EXTENDS CliffordCircuit, TLC
-CONSTANTS QN, MaxLen, NApply, Names1, Names2   \* Names1/Names2: gate vocabulary of the model instance
+CONSTANTS QN, MaxLen, NApply, Names1, Names2,  \* Names1/Names2: gate vocabulary of the model instance
+          Rnd1, Rnd2                           \* outcomes of the random-gate helpers explored by the instance (the history records only the wires)
 VARIABLES hist, inc
 vars == <<gates, hist, inc>>
 Init == CCInit /\ hist = <<>> /\ inc = IdT(QN)
 Bound == Len(hist) < MaxLen
 DoAppend == \E g \in {h \in Gates(QN) : h.k \in Names1 \cup Names2} : /\ AppendGate(g) /\ hist' = Append(hist, [op |-> "app", k |-> g.k, a |-> g.a, b |-> g.b])
                                  /\ inc' = Compose(inc, DaggerT(g, QN))
+DoRandom == \E a \in 1..QN, b \in 0..QN, k \in Rnd1 \cup Rnd2 :
+              /\ a # b /\ k \in (IF b = 0 THEN Rnd1 ELSE Rnd2) /\ RandomGate(k, a, b)
+              /\ hist' = Append(hist, [op |-> "rnd", k |-> "", a |-> a, b |-> b])
+              /\ inc' = IF k = "I" THEN inc ELSE Compose(inc, DaggerT([k |-> k, a |-> a, b |-> b], QN))
 DoQuery == CanQuery /\ UNCHANGED <<gates, inc>> /\ hist' = Append(hist, [op |-> "qry", k |-> "", a |-> 0, b |-> 0])
 DoApply == CanQuery /\ UNCHANGED <<gates, inc>> /\ \E i \in 1..NApply : hist' = Append(hist, [op |-> "apply", k |-> "", a |-> i, b |-> 0])
 DoExport == UNCHANGED <<gates, inc>> /\ hist' = Append(hist, [op |-> "export", k |-> "", a |-> 0, b |-> 0])
-Next == Bound /\ (DoAppend \/ DoQuery \/ DoApply \/ DoExport)
+Next == Bound /\ (DoAppend \/ DoRandom \/ DoQuery \/ DoApply \/ DoExport)
 Spec == Init /\ [][Next]_vars
 Valid == gates = <<>> \/ ValidT(CurT)
 IncOK == inc = CircuitT(gates, QN)
